@@ -562,8 +562,12 @@ func raceRoundOnce(g, procs int) *ev.Failure {
 	if bytes.Contains(out, []byte("WARNING: DATA RACE")) {
 		return ev.Failf("C11/data-race/first-classification", "race detector report while %d goroutines classified fresh types:\n%.1500s", g, out)
 	}
+	if bytes.Contains(out, []byte("C11-CHILD-FAIL")) {
+		return ev.Failf("C11/wrong-classification-under-concurrency", "%s", regexpFind(out, "C11-CHILD-FAIL .*"))
+	}
 	if err != nil || !bytes.Contains(out, []byte("C11-CHILD-OK")) {
-		return ev.Failf("C11/wrong-classification-under-concurrency", "child failed: %v %s", err, regexpFind(out, "C11-CHILD-FAIL .*"))
+		// the child died for a reason that is not about classification (harness trouble): inconclusive, never a verdict
+		panic(fmt.Sprintf("harness: re-executed child neither passed nor reported a wrong classification: %v\n%.800s", err, out))
 	}
 	return nil
 }
